@@ -63,7 +63,7 @@ def main():
             print(f"demo: without patch exit {rc0}, with patch exit {rc1} ({time.time() - t0:.0f}s)")
             if not a.skip_tests:
                 t0 = time.time()
-                rct, ot, et = sh(["/venv/bin/python", "-m", "pytest", "-q", "-p", "no:cacheprovider", "--timeout=900", "-x" if False else "-q", "-rf"], cwd=wt, env=env)
+                rct, ot, et = sh(["/venv/bin/python", "-m", "pytest", "-q", "-p", "no:cacheprovider", "--timeout=900", "-rf"], cwd=wt, env=env)
                 fails = {l.split(" ")[1] for l in ot.splitlines() if l.startswith("FAILED ")}
                 new = sorted(fails - KNOWN_ENV_FAILS)
                 tail = [l for l in ot.splitlines() if " passed" in l or " failed" in l][-1:]
